@@ -15,7 +15,8 @@ RULE = ("random hierarchies: depth 1-4 (thorough 6), 1-3 placements per solver, 
         "exposure at every level; plus every library block solved bare vs wrapped in a solver with all pins raised; "
         "distinct = distinct hierarchy description; non-trivial = depth >= 2 and at least one link")
 TRUSTED = ["flattening of the hierarchy description into the equivalent flat circuit (harness/hier.py)", "numpy reference"]
-ASSUMPTIONS = ["every inner system met at any level is invertible"]
+ASSUMPTIONS = ["every inner system met at any level is invertible",
+               "renamed-placements stream: the value that reaches a leaf follows the renaming rules of C05 (renamings injective on the cell's names, every visible name given)"]
 EXPLANATION = "C01 gives that each level returns the solution operator of its sub-network; substitution of a solved sub-network is exercised by the oracle"
 
 
@@ -192,6 +193,88 @@ def bare_vs_wrapped(ctx):
             ctx.violation(f"C02:bare-vs-wrapped-raised:{name}", f"{name}: {type(e).__name__}: {str(e)[:60]}", rep)
 
 
+def renamed_placements(ctx, rng, data=None):
+    """one parametric cell (a sub-solver with leaves driven by pa / pb) placed two or three times in a parent, each placement with
+    its own renaming of the cell's parameters - onto a shared parent name, onto each other's names, swapped, or none - optionally
+    wrapped once more; every visible parameter is given a value; the real hierarchical solve against the flat reference in which
+    every leaf carries the value the renaming rules route to it"""
+    from fractions import Fraction
+    if data is None:
+        counter = [0, 0]
+        cell = hier.Node()
+        for pn in rng.sample(["pa", "pb"], 2)[:rng.randint(1, 2)] + (["pa"] if rng.random() < 0.3 else []):
+            lf = hier.gen_leaf(rng, counter, parametric=True, pnames=(pn,))
+            cell.children.append((lf, {}))
+        free = [(i, q) for i, (ch, _) in enumerate(cell.children) for q in ch.pin_names()]
+        rng.shuffle(free)
+        if len(cell.children) >= 2:
+            a = free.pop()
+            b = next((x for x in free if x[0] != a[0]), None)
+            if b is not None:
+                free.remove(b)
+                cell.links.append((a[0], a[1], b[0], b[1]))
+        for k, (i, q) in enumerate(free[:3]):
+            cell.expose.append((f"c{k}", i, q))
+        vis = hier.visible(cell)
+        options = [{}, {vis[0]: "V"}, {vis[-1]: "V"}, {vis[0]: "W"}]
+        if len(vis) == 2:
+            options += [{vis[0]: vis[1], vis[1]: vis[0]}, {vis[0]: "V", vis[1]: "W"}, {vis[0]: "W", vis[1]: "V"}, {vis[1]: "W"}]
+        parent = hier.Node()
+        for _ in range(rng.randint(2, 3)):
+            parent.children.append((cell, dict(rng.choice(options))))
+        # chain the placements through their first / last exposed pin, expose the rest
+        names = cell.pin_names()
+        used = set()
+        for i in range(len(parent.children) - 1):
+            if len(names) >= 2 and rng.random() < 0.8:
+                parent.links.append((i, names[-1], i + 1, names[0]))
+                used |= {(i, names[-1]), (i + 1, names[0])}
+        k = 0
+        for i in range(len(parent.children)):
+            for q in names:
+                if (i, q) not in used:
+                    parent.expose.append((f"x{k}", i, q))
+                    k += 1
+        top = parent
+        if rng.random() < 0.4:
+            top = hier.Node()
+            pv = hier.visible(parent)
+            rho = {pv[0]: "Z"} if pv and rng.random() < 0.5 else {}
+            top.children.append((parent, rho))
+            for j, (nm, _, _) in enumerate(parent.expose):
+                top.expose.append((f"t{j}", 0, nm))
+        tv = hier.visible(top)
+        assigns = [{x: Fraction(rng.randint(-8, 8), 8) for x in tv} for _ in range(3)]
+        data = {"kind": "renamed-placements", "tree": hier.describe(top), "assigns": [{x: gen.frac_str(v) for x, v in a.items()} for a in assigns]}
+    node = hier.undescribe(data["tree"])
+    ctx.case(data["tree"], tags=["stream:renamed-placements"])
+    try:
+        sol = hier.build(node)
+    except Exception as e:  # noqa
+        ctx.violation(f"C02:renamed-build-raised-{type(e).__name__}", f"building a cell placed several times with renamings raised: {str(e)[:70]}", data)
+        return
+    for a in data["assigns"]:
+        vals = {x: Fraction(v) for x, v in a.items()}
+        flat = hier.flatten_desc(node, vals)
+        names = cs.exposed_names(flat)
+        Tref, cond, _, _ = gen.reference_solve(flat)
+        if cond > 1e6:
+            ctx.tag("skipped:ill-conditioned")
+            continue
+        try:
+            T = impl.solved_matrix(sol.solve(**{x: float(v) for x, v in vals.items()}), names)[0]
+        except Exception as e:  # noqa
+            if impl.outcome_class(e) == "singular":
+                continue
+            ctx.violation(f"C02:renamed-raised-{type(e).__name__}", f"solving a cell placed several times with renamings raised: {str(e)[:70]}", data)
+            return
+        err = float(np.max(np.abs(T - Tref))) if T.size else 0.0
+        if err > 1e-9 * max(1.0, cond):
+            ctx.violation("C02:renamed-placements-differ", f"a cell placed {len(node.children) if node.children[0][0].kind != 'solver' or len(node.children) > 1 else len(node.children[0][0].children)} "
+                          f"times with different renamings: hierarchical solve at {dict(a)} differs from the flat circuit by {err:.3e}", data)
+            return
+
+
 def placement_unit(ctx, rng, data=None):
     """the step the abstract network of `C02_transparent` takes for granted: the structure that wraps a placed solver carries, on
     the pins it adopted, exactly the matrix the child's own solve() returns - pin by pin, at every sweep point, also when the
@@ -239,6 +322,9 @@ def run(ctx):
     prng = ctx.subrng("c02-placement")
     for _ in range(ctx.budget(60, 600)):
         placement_unit(ctx, prng)
+    rrng = ctx.subrng("c02-renamed")
+    for _ in range(ctx.budget(120, 1500)):
+        renamed_placements(ctx, rrng)
     rng = ctx.subrng("c02")
     n = ctx.budget(300, 2000)
     maxd = 4 if ctx.tier == "quick" else 6
@@ -262,6 +348,11 @@ def replay(ctx, data):
         if ctx.violations:
             return False, ctx.violations[0]["what"]
         return True, "the wrapping structure carries the child's matrix on the adopted pins"
+    if data.get("kind") == "renamed-placements":
+        renamed_placements(ctx, None, data)
+        if ctx.violations:
+            return False, ctx.violations[0]["what"]
+        return True, "a cell placed several times with different renamings equals the flat circuit"
     if data.get("kind") == "bare":
         bare_vs_wrapped(ctx)
     else:
